@@ -79,7 +79,14 @@ def seed_two_level():
     return s
 
 
-SEEDS = [("flat", seed_flat), ("forest", seed_forest), ("layered", seed_layered), ("two-level", seed_two_level)]
+def seed_bare():
+    """A compose that has no variants (yet): the forest is empty."""
+    s = seed_flat()
+    s["variants"] = []
+    return s
+
+
+SEEDS = [("flat", seed_flat), ("forest", seed_forest), ("layered", seed_layered), ("two-level", seed_two_level), ("bare", seed_bare)]
 
 
 # ------------------------------------------------------------------------------------------------
